@@ -112,8 +112,8 @@ def check(env, sources, name="layout", shard=150, n_impl=None, n_mut=None):
     V.import_repo()
     rng = env.rng
     sources = list(dict.fromkeys(sources))
-    n_impl = n_impl or env.budget(900, 6000)
-    n_mut = n_mut or env.budget(700, 5000)
+    n_impl = n_impl or env.budget(600, 5000)
+    n_mut = n_mut or env.budget(500, 4000)
     if len(sources) > n_impl:
         # the leading sources are the hand-picked seeds (kept); sample the rest
         keep = sources[:60]
